@@ -1,15 +1,10 @@
 use std::path::{Path, PathBuf};
-use std::io::ErrorKind;
 #[verifier::external_type_specification]
 #[verifier::external_body]
 pub struct ExPath(Path);
 #[verifier::external_type_specification]
 #[verifier::external_body]
 pub struct ExPathBuf(PathBuf);
-#[verifier::external_type_specification]
-#[verifier::external_body]
-pub struct ExErrorKind(std::io::ErrorKind);
-pub assume_specification[ std::io::Error::kind ](e: &std::io::Error) -> std::io::ErrorKind;
 
 // ---- futures_lite::io::Take (assumed contract, from its documentation and source):
 // wraps a reader; delivers at most `budget` bytes in total and then reports end of stream without
